@@ -68,6 +68,17 @@ template<class S> struct SetRunner<manif::SE3<S>> { static bool set(const Case& 
 template<class G> static bool run_ctor(const Case& c, Out<typename G::Scalar>& o){
   using S = typename G::Scalar; int id = std::stoi(c.iarg);
   if(id < 10){ G r; if(!CtorRunner<G>::make(c,id,r)) throw std::logic_error("no such constructor"); o.mat(r.coeffs()); o.mat(r.transform()); return true; }
+  if(id >= 20 && id <= 24){   // construction from views / assignment of raw data (every group); args[0] = the coefficients
+    using DG = typename G::DataType; DG data = vec_from<S,DG>(c.args[0]); DG buf = data; G r = G::Identity();
+    switch(id){
+      case 20: { Eigen::Map<G> m(buf.data()); G t(m); r = t; break; }                  // G(Eigen::Map<G>)
+      case 21: { Eigen::Map<const G> m(buf.data()); G t(m); r = t; break; }            // G(Eigen::Map<const G>)
+      case 22: { r = data; break; }                                                    // X = data  (operator=(MatrixBase))
+      case 23: { Eigen::Map<G> m(buf.data()); r = m; break; }                          // X = Map   (operator=(LieGroupBase<Other>)): not validated
+      case 24: { DG buf2 = G::Identity().coeffs(); Eigen::Map<G> m(buf2.data()); m = data; r.coeffs() = buf2; break; }  // Map = data
+    }
+    o.mat(r.coeffs()); o.mat(r.transform()); return true;
+  }
   G X; X.coeffs() = vec_from<S,typename G::DataType>(c.args[0]);       // raw write: no validation
   if(!SetRunner<G>::set(c,id,X)) throw std::logic_error("no such setter");
   o.mat(X.coeffs()); o.mat(X.transform()); return true;
